@@ -13,7 +13,9 @@ Inductive hop := OArray (esz : N) | OVecPush (esz : N) | OVecReserve (esz : N) |
                | OProductSq (unit : N)       (* a = u.repeat(n) (unit bytes each); b = "b".repeat(n); r of n * n bytes *)
                | OLiteral (cfn : N)          (* a string constant of n bytes: merge_heap (check, charge), then the function object of the input *)
                | OConcatDouble (slen : N)
-               | OLoop (allocs : list (N * bool)).
+               | OLoop (allocs : list (N * bool))
+               | OChurn (allocs : list (N * bool)) (rsv : Z)    (* n closures created and dropped, then two Array<Int>(rsv) *)
+               | OChurnOver (allocs : list (N * bool)) (rsv : Z).   (* one Array<Int>(rsv) first, then the same *)
 
 (* a = alloc(n); free(a); b = alloc(n); c = alloc(n): the second allocation reuses the freed slot of the first *)
 Definition manual_reuse (m : mem) (n : Z) : res * mem :=
@@ -111,6 +113,29 @@ Definition concat_step (st : res * cst) : res * cst :=
 Definition concat_gc (n : N) (m : mem) (slen : N) : res * cst :=
   N.iter n concat_step (ROk, mkC m 0 0 INITIAL_GC_THRESHOLD slen).
 
+(* ---- churn: `let c = mk(i); t = t + c(1)` n times, WITH the collector, then two arrays of rsv ints.  One safepoint
+   per iteration (MakeClosure, before the function object is copied); a collection frees everything the earlier
+   iterations allocated except what the previous iteration left in `c`, and what it subtracts is what those objects
+   were charged (Proofs.HeapAccountProofs).  The arrays come last: they fit only if the counter went back down. *)
+Record chst := mkCh { h_mem : mem; h_garbage : N; h_last : N; h_next : N }.
+Definition churn_step (allocs : list (N * bool)) (st : res * chst) : res * chst :=
+  let '(r, c) := st in
+  match r with
+  | ROk =>
+      let m := h_mem c in
+      let '(m1, g1, nx1) :=
+        if (h_next c <=? heap m)%N
+        then let h := (heap m - h_garbage c)%N in (mkMem h (manual m) (maxb m), 0%N, N.max (GC_GROWTH_FACTOR * h) INITIAL_GC_THRESHOLD)
+        else (m, h_garbage c, h_next c) in
+      match alloc_seq m1 allocs with
+      | (ROk, m2) => (ROk, mkCh m2 (g1 + h_last c) (heap m2 - heap m1) nx1)
+      | (r', m2) => (r', mkCh m2 (g1 + h_last c) (heap m2 - heap m1) nx1)
+      end
+  | _ => st
+  end.
+Definition churn_run (n : N) (allocs : list (N * bool)) (m : mem) : res * chst :=
+  N.iter n (churn_step allocs) (ROk, mkCh m 0 0 INITIAL_GC_THRESHOLD).
+
 (* ---- what the host was asked for: 1 = some request of at least 2 * HOST_T bytes is in the trace, 0 = every request
    is at most HOST_T / 2, 2 = in between / not modelled (the tie then accepts either) *)
 Definition HOST_T : N := 65536.
@@ -129,6 +154,15 @@ Definition hl_run1 (cap : N) (o : hop) (n : Z) (limit used0 : N) : list Z :=
     match push_fast (k + 1) k cap m0 v0 with      (* every step consumes at least one push: k + 1 steps always suffice *)
     | (0%N, (r, m', _)) => out r m' 2
     | _ => [99; 0; 2]                                  (* bound exhausted: never equal to an observation *)
+    end in
+  let churn_then (allocs : list (N * bool)) (rsv : Z) (m0 : mem) :=
+    match churn_run (Z.to_N n) allocs m0 with
+    | (ROk, c) =>
+        match op_array cap 8 (h_mem c) rsv with
+        | (ROk, m1, _) => let '(r, m2, _) := op_array cap 8 m1 rsv in out r m2 2
+        | (r, m1, _) => out r m1 2
+        end
+    | (r, c) => out r (h_mem c) 2
     end in
   match o with
   | OArray e => let '(r, m', t) := op_array cap e m n in out r m' (host_class t)
@@ -152,6 +186,12 @@ Definition hl_run1 (cap : N) (o : hop) (n : Z) (limit used0 : N) : list Z :=
       end
   | OConcatDouble sl => let '(r, c) := concat_gc (Z.to_N n) m sl in out r (c_mem c) 2
   | OLoop allocs => let '(r, m', _) := loop_run (Z.to_N n) cap allocs m (lit 8%N) in out r m' 2
+  | OChurn allocs rsv => churn_then allocs rsv m
+  | OChurnOver allocs rsv =>
+      match op_array cap 8 m rsv with
+      | (ROk, m0, _) => churn_then allocs rsv m0
+      | (r, m0, _) => out r m0 2
+      end
   end.
 
 Inductive hq := QOp (o : hop) (n : Z) (limit cap_lo cap_hi used0 : N).
